@@ -78,11 +78,13 @@ class Module:
 
 
 class Repo:
-    def __init__(self, root: str = "/repo", overrides: dict | None = None, package: str = "solvor"):
+    def __init__(self, root: str = "/repo", overrides: dict | None = None, package: str = "solvor", derename: bool = True):
         self.root = root
         self.package = package
         self.overrides = overrides or {}
         self.modules: dict[str, Module] = {}
+        self.derename = derename
+        self.renamed_units: list[str] = []  # functions analysed under their baseline local names (pure renames)
         self._load()
 
     # -- loading --------------------------------------------------------------------------
@@ -107,6 +109,11 @@ class Repo:
                 tree = ast.parse(src, filename=rel)
             except SyntaxError as e:  # pragma: no cover
                 raise AnalysisError(f"cannot parse {rel}: {e}") from e
+            if self.derename:
+                from .derename import derename
+
+                for q in derename(rel, tree):
+                    self.renamed_units.append(f"{rel}::{q}")
             name = rel[:-3].replace(os.sep, ".")
             if name.endswith(".__init__"):
                 name = name[: -len(".__init__")]
